@@ -85,7 +85,8 @@ Definition ipcp_kind (c : ipcp_cfg) (o : opt) : kind :=
     if Nat.eqb (length (o_data o)) 4 then
       if usable (ic_assigned c) && negb (ip_equal_o (o_data o) (to4o (ic_assigned c)))
       then KNak (ip_option 3 (ic_assigned c))
-      else if ip_equal (o_data o) ipv4zero then KRej else KAck
+      else if ip_equal (o_data o) ipv4zero then KRej
+      else if negb (usable (ic_assigned c)) && ic_refuse c (o_data o) then KRej else KAck
     else KRej
   else if N.eqb (o_type o) 129 then ipcp_dns_kind 129 (ic_dns1 c) o
   else if N.eqb (o_type o) 131 then ipcp_dns_kind 131 (ic_dns2 c) o
@@ -708,10 +709,10 @@ Proof.
   exists v. destruct ow; simpl; simpl in Hv; rewrite Hv; repeat split; auto; exists x; auto.
 Qed.
 
-Lemma sess_start_ok : forall ow aaa d orc, sess_ok (sess_start_dns repaired ow aaa d orc).
+Lemma sess_start_ok : forall ow aaa d orc f, sess_ok (sess_start_dns repaired ow aaa d orc f).
 Proof.
-  intros ow aaa d orc. unfold sess_start_dns.
-  destruct (start_ncp_spec ow (mk_ipcp_cfg None None) 0 ipeer0 (extract_ip repaired aaa) false [] (dns_of d) orc)
+  intros ow aaa d orc f. unfold sess_start_dns.
+  destruct (start_ncp_spec ow (with_refuse (mk_ipcp_cfg None None) f) 0 ipeer0 (extract_ip repaired aaa) false [] (dns_of d) orc)
     as [(v & Hv & Hl & Hz & Ha & Hp)|(_ & H2 & _ & H4 & H5)].
   - right. exists v. repeat split; auto.
   - left. repeat split; auto.
@@ -887,10 +888,10 @@ Proof.
   apply andb_true_iff in Hnc. destruct Hnc as [H1 H2]. apply IH; auto. apply sess_step_ok2E; auto.
 Qed.
 
-Lemma sess_start_ok2 : forall ow aaa d orc, sess_ok2 (sess_start_dns repaired ow aaa d orc).
+Lemma sess_start_ok2 : forall ow aaa d orc f, sess_ok2 (sess_start_dns repaired ow aaa d orc f).
 Proof.
-  intros ow aaa d orc. unfold sess_start_dns.
-  destruct (start_ncp_spec ow (mk_ipcp_cfg None None) 0 ipeer0 (extract_ip repaired aaa) false [] (dns_of d) orc)
+  intros ow aaa d orc f. unfold sess_start_dns.
+  destruct (start_ncp_spec ow (with_refuse (mk_ipcp_cfg None None) f) 0 ipeer0 (extract_ip repaired aaa) false [] (dns_of d) orc)
     as [(v & Hv & Hl & Hz & (a & Ha & Hto) & Hp)|(_ & H2 & _ & H4 & H5)].
   - right. split; [exists v; repeat split; auto; right; exists a; auto|rewrite Ha; discriminate].
   - left. repeat split; auto.
@@ -929,15 +930,15 @@ Qed.
 
 (* at every point of every history, for both owners: either IPCP was never started (no address, closed), or
    the assigned address is usable, the session address is nil or the assigned one, nothing stale is remembered *)
-Lemma adopted_is_assigned : forall ow aaa d orc es,
-  let s := sess_run repaired (sess_start_dns repaired ow aaa d orc) es in
+Lemma adopted_is_assigned : forall ow aaa d orc f es,
+  let s := sess_run repaired (sess_start_dns repaired ow aaa d orc f) es in
   (s_fsm s = 0%N /\ s_addr s = None /\ s_open s = false) \/
   (usable (ic_assigned (s_cfg s)) = true /\
    (s_addr s = None \/ to4o (s_addr s) = ic_assigned (s_cfg s)) /\
    (pp_addr (s_peer s) = None \/ pp_addr (s_peer s) = ic_assigned (s_cfg s))).
 Proof.
-  intros ow aaa d orc es s.
-  pose proof (sess_run_ok es _ (sess_start_ok ow aaa d orc)) as H. fold s in H.
+  intros ow aaa d orc f es s.
+  pose proof (sess_run_ok es _ (sess_start_ok ow aaa d orc f)) as H. fold s in H.
   destruct H as [H|H]; [left; exact H|right].
   split; [apply usable_assigned_of_inv; exact H|].
   destruct H as (v & Hv & _ & _ & Ha & Hp). rewrite Hv. split; [|exact Hp].
@@ -945,14 +946,14 @@ Proof.
 Qed.
 
 (* and when no re-authentication runs into a reservation conflict the session address IS the assigned one *)
-Lemma adopted_is_assigned_no_conflict : forall ow aaa d orc es,
+Lemma adopted_is_assigned_no_conflict : forall ow aaa d orc f es,
   forallb no_conflict es = true ->
-  let s := sess_run repaired (sess_start_dns repaired ow aaa d orc) es in
+  let s := sess_run repaired (sess_start_dns repaired ow aaa d orc f) es in
   (s_fsm s = 0%N /\ s_addr s = None /\ s_open s = false) \/
   (usable (ic_assigned (s_cfg s)) = true /\ to4o (s_addr s) = ic_assigned (s_cfg s)).
 Proof.
-  intros ow aaa d orc es Hnc s.
-  pose proof (sess_run_ok2 es _ Hnc (sess_start_ok2 ow aaa d orc)) as H. fold s in H.
+  intros ow aaa d orc f es Hnc s.
+  pose proof (sess_run_ok2 es _ Hnc (sess_start_ok2 ow aaa d orc f)) as H. fold s in H.
   destruct H as [H|(H & Hne)]; [left; exact H|right].
   split; [apply usable_assigned_of_inv; exact H|].
   destruct H as (v & Hv & _ & _ & Ha & Hp). rewrite Hv.
@@ -967,22 +968,22 @@ Definition addr_after_registry (ow : owner) (addr : option bytes) (orc : oracle)
   | Some a => match ow with PPPoE => if or_reserve_ok orc then Some a else None | _ => Some a end
   end.
 
-Lemma startncp_assigned : forall ow aaa d orc,
-  let s := sess_start_dns repaired ow aaa d orc in
+Lemma startncp_assigned : forall ow aaa d orc f,
+  let s := sess_start_dns repaired ow aaa d orc f in
   let a := addr_after_registry ow (extract_ip repaired aaa) orc in
   (usable a = true ->
      s_fsm s = 6%N /\ usable (ic_assigned (s_cfg s)) = true /\ ic_assigned (s_cfg s) = to4o a /\ s_addr s = a) /\
   (usable a = false ->
      s_fsm s = 0%N /\ s_addr s = None /\ s_open s = false /\ ic_assigned (s_cfg s) = None).
 Proof.
-  intros ow aaa d orc s a. unfold s, sess_start_dns, start_ncp. fold (addr_after_registry ow (extract_ip repaired aaa) orc).
+  intros ow aaa d orc f s a. unfold s, sess_start_dns, start_ncp. fold (addr_after_registry ow (extract_ip repaired aaa) orc).
   fold a. cbn [f_always repaired]. rewrite orb_false_r.
   destruct (usable a) eqn:Hu; split; intros H; try discriminate.
   - destruct (usable_spec _ Hu) as (v & Hv & Hl & Hz).
     destruct a as [x|]; [|discriminate].
-    assert (E : (match ow, Some x with LNS, None => (mk_ipcp_cfg None None, ipeer0) | _, _ =>
-                   ipcp_set_peer repaired (mk_ipcp_cfg None None) ipeer0 (Some x) end)
-                = ipcp_set_peer repaired (mk_ipcp_cfg None None) ipeer0 (Some x)) by (destruct ow; reflexivity).
+    assert (E : (match ow, Some x with LNS, None => (with_refuse (mk_ipcp_cfg None None) f, ipeer0) | _, _ =>
+                   ipcp_set_peer repaired (with_refuse (mk_ipcp_cfg None None) f) ipeer0 (Some x) end)
+                = ipcp_set_peer repaired (with_refuse (mk_ipcp_cfg None None) f) ipeer0 (Some x)) by (destruct ow; reflexivity).
     rewrite E. simpl in Hv. destruct ow; simpl; rewrite Hv; simpl; rewrite (to4_of_len4 v Hl), Hz; auto.
   - simpl. repeat split.
 Qed.
@@ -1127,9 +1128,15 @@ Qed.
 Definition remembered_ok (s : iobj) : Prop :=
   forall x, pp_addr (io_peer s) = Some x -> ipcp_kind (io_cfg s) (mkopt 3 x) = KAck.
 
-Lemma ipcp_kind3_assigned : forall c c' o, ic_assigned c = ic_assigned c' -> o_type o = 3%N ->
-  ipcp_kind c o = ipcp_kind c' o.
-Proof. intros c c' o H Ht. unfold ipcp_kind. rewrite Ht, H. reflexivity. Qed.
+Lemma ipcp_kind3_assigned : forall c c' o, ic_assigned c = ic_assigned c' -> ic_refuse c = ic_refuse c' ->
+  o_type o = 3%N -> ipcp_kind c o = ipcp_kind c' o.
+Proof. intros c c' o H Hr Ht. unfold ipcp_kind. rewrite Ht, H, Hr. reflexivity. Qed.
+
+Lemma ipcp_learn_refuse : forall os c, ic_refuse (ipcp_learn c os) = ic_refuse c.
+Proof.
+  unfold ipcp_learn. induction os as [|o os IH]; intros c; simpl; [reflexivity|].
+  rewrite IH. unfold ipcp_learn_opt. split_ifs; reflexivity.
+Qed.
 
 Lemma ipcp_kind3_data : forall c o, o_type o = 3%N -> ipcp_kind c o = ipcp_kind c (mkopt 3 (o_data o)).
 Proof. intros c o Ht. unfold ipcp_kind. rewrite Ht. reflexivity. Qed.
@@ -1137,9 +1144,9 @@ Proof. intros c o Ht. unfold ipcp_kind. rewrite Ht. reflexivity. Qed.
 Lemma iobj_step_remembered : forall s o, remembered_ok s -> remembered_ok (fst (iobj_step repaired s o)).
 Proof.
   intros s o H. unfold remembered_ok in *.
-  assert (K : forall c', ic_assigned c' = ic_assigned (io_cfg s) ->
+  assert (K : forall c', ic_assigned c' = ic_assigned (io_cfg s) -> ic_refuse c' = ic_refuse (io_cfg s) ->
               forall x, pp_addr (io_peer s) = Some x -> ipcp_kind c' (mkopt 3 x) = KAck).
-  { intros c' E x Hx. rewrite (ipcp_kind3_assigned c' (io_cfg s)); auto. }
+  { intros c' E Er x Hx. rewrite (ipcp_kind3_assigned c' (io_cfg s)); auto. }
   destruct o as [q|q|q|q|a|d1 d2|a]; simpl.
   - destruct (ipcp_req (io_cfg s) (io_peer s) q) as [r p'] eqn:R. simpl. intros x Hx.
     pose proof (ipcp_fold_peer_addr (io_cfg s) q res0 (io_peer s)) as F.
@@ -1147,12 +1154,12 @@ Proof.
     destruct F as [F|(o & Ho & Ko & To & F)].
     + apply H. congruence.
     + rewrite Hx in F. inversion F; subst. rewrite <- (ipcp_kind3_data _ o To). exact Ko.
-  - apply K. apply ipcp_learn_assigned.
-  - apply K. apply ipcp_learn_assigned.
-  - apply K. reflexivity.
+  - apply K; [apply ipcp_learn_assigned|apply ipcp_learn_refuse].
+  - apply K; [apply ipcp_learn_assigned|apply ipcp_learn_refuse].
+  - apply K; reflexivity.
   - intros x Hx. discriminate.
-  - apply K. reflexivity.
-  - apply K. reflexivity.
+  - apply K; reflexivity.
+  - apply K; reflexivity.
 Qed.
 
 Lemma iobj_run_remembered : forall ops s, remembered_ok s -> remembered_ok (iobj_run repaired s ops).
@@ -1494,34 +1501,34 @@ Lemma iobj_fresh_remembered : forall c ops x,
 Proof. intros c ops. apply iobj_run_remembered. intros x H. discriminate. Qed.
 
 (* ------------------------------------------------------------------ restored sessions *)
-Lemma sess_restore_ok : forall addr d1 d2, sess_ok (sess_restore repaired addr d1 d2).
+Lemma sess_restore_ok : forall addr d1 d2 f, sess_ok (sess_restore_f repaired addr d1 d2 f).
 Proof.
-  intros addr d1 d2. unfold sess_restore. cbn [f_restore f_rguard repaired orb].
+  intros addr d1 d2 f. unfold sess_restore_f. cbn [f_restore f_rguard repaired orb].
   destruct (usable (Some addr)) eqn:Hu.
   - right. destruct (usable_spec _ Hu) as (v & Hv & Hl & Hz). simpl in Hv.
     exists v. simpl. rewrite Hv. repeat split; auto. right. exists addr. auto.
   - left. repeat split.
 Qed.
 
-Lemma restored_adopts_only_assigned : forall addr d1 d2 es,
-  let s := sess_run repaired (sess_restore repaired addr d1 d2) es in
+Lemma restored_adopts_only_assigned : forall addr d1 d2 f es,
+  let s := sess_run repaired (sess_restore_f repaired addr d1 d2 f) es in
   (s_fsm s = 0%N /\ s_addr s = None /\ s_open s = false) \/
   (usable (ic_assigned (s_cfg s)) = true /\
    (s_addr s = None \/ to4o (s_addr s) = ic_assigned (s_cfg s)) /\
    (pp_addr (s_peer s) = None \/ pp_addr (s_peer s) = ic_assigned (s_cfg s))).
 Proof.
-  intros addr d1 d2 es s.
-  pose proof (sess_run_ok es _ (sess_restore_ok addr d1 d2)) as H. fold s in H.
+  intros addr d1 d2 f es s.
+  pose proof (sess_run_ok es _ (sess_restore_ok addr d1 d2 f)) as H. fold s in H.
   destruct H as [H|H]; [left; exact H|right].
   split; [apply usable_assigned_of_inv; exact H|].
   destruct H as (v & Hv & _ & _ & Ha & Hp). rewrite Hv. split; [|exact Hp].
   destruct Ha as [Ha|(a & Ha & Hto)]; [left; exact Ha|right; rewrite Ha; exact Hto].
 Qed.
 
-Lemma restored_assigned : forall addr d1 d2, usable (Some addr) = true ->
-  ic_assigned (s_cfg (sess_restore repaired addr d1 d2)) = to4 addr /\
-  s_fsm (sess_restore repaired addr d1 d2) = 9%N.
-Proof. intros addr d1 d2 Hu. unfold sess_restore. cbn [f_restore f_rguard repaired orb]. rewrite Hu. auto. Qed.
+Lemma restored_assigned : forall addr d1 d2 f, usable (Some addr) = true ->
+  ic_assigned (s_cfg (sess_restore_f repaired addr d1 d2 f)) = to4 addr /\
+  s_fsm (sess_restore_f repaired addr d1 d2 f) = 9%N.
+Proof. intros addr d1 d2 f Hu. unfold sess_restore_f. cbn [f_restore f_rguard repaired orb]. rewrite Hu. auto. Qed.
 
 (* ------------------------------------------------------------------ the session trace *)
 Definition no_sca (acts : list act) : Prop := forall id os, ~ In (Sca id os) acts.
@@ -1724,18 +1731,18 @@ Proof.
   unfold sess_step. destruct (is_ended s); [exact H2|apply sess_step_fsm_ok; auto].
 Qed.
 
-Lemma sess_start_fsm_ok : forall ow aaa d orc, fsm_ok (sess_start_dns repaired ow aaa d orc).
+Lemma sess_start_fsm_ok : forall ow aaa d orc f, fsm_ok (sess_start_dns repaired ow aaa d orc f).
 Proof.
-  intros ow aaa d orc. unfold sess_start_dns, start_ncp. cbn [f_always repaired]. rewrite orb_false_r.
+  intros ow aaa d orc f. unfold sess_start_dns, start_ncp. cbn [f_always repaired]. rewrite orb_false_r.
   destruct (usable _) eqn:Hu.
   - destruct (match ow, _ with LNS, None => _ | _, _ => _ end). simpl. unfold fsm_ok. simpl.
     split; [lia|]. split; [discriminate|]. intros Hn. rewrite Hn in Hu. discriminate.
   - simpl. unfold fsm_ok. simpl. split; [lia|]. split; [discriminate|auto].
 Qed.
 
-Lemma sess_restore_fsm_ok : forall addr d1 d2, fsm_ok (sess_restore repaired addr d1 d2).
+Lemma sess_restore_fsm_ok : forall addr d1 d2 f, fsm_ok (sess_restore_f repaired addr d1 d2 f).
 Proof.
-  intros addr d1 d2. unfold sess_restore. cbn [f_restore f_rguard repaired orb].
+  intros addr d1 d2 f. unfold sess_restore_f. cbn [f_restore f_rguard repaired orb].
   destruct (usable (Some addr)); unfold fsm_ok; simpl; (split; [lia|]); split; auto; discriminate.
 Qed.
 
@@ -1863,3 +1870,76 @@ Proof.
       try (unfold ipv6cp_input in Hs; rewrite ?H1 in Hs; destruct (parse_wire _); simpl in Hs; contradiction).
 Qed.
 
+
+(* ------------------------------------------------------------------ choices the property leaves free *)
+(* (1) IPCP with a usable assignment never consults the implementation's "refuse" choice *)
+Lemma ipcp_refuse_irrelevant : forall c f p os,
+  usable (ic_assigned c) = true -> ipcp_req (with_refuse c f) p os = ipcp_req c p os.
+Proof.
+  intros c f p os Hu. unfold ipcp_req. generalize (res0, p). induction os as [|o os IH]; intros st; simpl; [reflexivity|].
+  assert (E : ipcp_opt (with_refuse c f) st o = ipcp_opt c st o).
+  { unfold ipcp_opt, with_refuse. destruct st as [r q]. cbn [ic_assigned ic_dns1 ic_dns2 ic_refuse]. rewrite Hu.
+    cbn [negb andb]. reflexivity. }
+  rewrite E. apply IH.
+Qed.
+
+(* (2) the values carried in Configure-Naks: any implementation whose result differs from the model's only in
+   the DATA of the Nak'd options (same positions, same option types) answers with the same kind of packet,
+   acknowledges and rejects exactly the same options *)
+Definition nak_sim (a b : list opt) : Prop := Forall2 (fun x y => o_type x = o_type y) a b.
+Definition res_sim (r r' : res) : Prop :=
+  r_ack r' = r_ack r /\ r_rej r' = r_rej r /\ nak_sim (r_nak r) (r_nak r').
+
+Lemma res_sim_reply : forall id r r', res_sim r r' ->
+  is_good r' = is_good r /\
+  ((exists os, reply id r = Sca id os /\ reply id r' = Sca id os) \/
+   (exists os, reply id r = Scj id os /\ reply id r' = Scj id os) \/
+   (exists nk nk', reply id r = Scn id nk /\ reply id r' = Scn id nk' /\ nak_sim nk nk')).
+Proof.
+  intros id r r' (A & R & N). unfold reply, is_good, has_rej. rewrite R.
+  destruct N as [|x y nk nk' Hxy N]; destruct (r_rej r) eqn:E; simpl.
+  - split; [reflexivity|]. left. rewrite A. eauto.
+  - split; [reflexivity|]. right; left. eauto.
+  - split; [reflexivity|]. right; right. exists (x :: nk), (y :: nk'). repeat split; auto. constructor; auto.
+  - split; [reflexivity|]. right; left. eauto.
+Qed.
+
+Lemma res_sim_refl : forall r, res_sim r r.
+Proof.
+  intros r. repeat split; auto. unfold nak_sim. induction (r_nak r); constructor; auto.
+Qed.
+
+Lemma nak_sim_type : forall a b t, nak_sim a b -> (exists x, In x a /\ o_type x = t) -> exists y, In y b /\ o_type y = t.
+Proof.
+  intros a b t H. induction H as [|x y a b Hxy H IH]; intros (z & Hz & Ht); [contradiction|].
+  destruct Hz as [->|Hz]; [exists y; split; [left; auto|congruence]|].
+  destruct (IH (ex_intro _ z (conj Hz Ht))) as (w & Hw & Hwt). exists w. split; [right; auto|auto].
+Qed.
+
+Lemma lcp_nak_choice_free : forall fl magic p opts r',
+  res_sim (fst (lcp_req fl magic p opts)) r' -> magic <> 0%N ->
+  (forall o, In o (r_ack r') -> o_type o = 5%N -> length (o_data o) = 4%nat /\ num32 (o_data o) <> magic) /\
+  (forall o, In o opts -> o_type o = 5%N -> length (o_data o) = 4%nat -> num32 (o_data o) = magic ->
+     (exists n, In n (r_nak r') /\ o_type n = 5%N) /\ ~ In o (r_ack r') /\ is_good r' = false).
+Proof.
+  intros fl magic p opts r' S Hm.
+  destruct (lcp_req fl magic p opts) as [r p1] eqn:R. simpl in S.
+  destruct (lcp_no_own_magic fl magic p opts r p1 R Hm) as (A & B).
+  pose proof (res_sim_reply 0 r r' S) as [G _]. destruct S as (SA & SR & SN).
+  split.
+  - intros o Ho. rewrite SA in Ho. apply A; auto.
+  - intros o Ho Ht Hl He. destruct (B o Ho Ht Hl He) as (B1 & B2 & B3).
+    split; [|split; [rewrite SA; exact B2|rewrite G; exact B3]].
+    apply (nak_sim_type (r_nak r) (r_nak r') 5%N SN). exists o. auto.
+Qed.
+
+Lemma lcp_nak_choice_free_auth : forall magic p opts r',
+  res_sim (fst (lcp_req repaired magic p opts)) r' ->
+  forall o, In o (r_ack r') -> o_type o = 3%N ->
+     num16 (o_data o) = proto_pap \/
+     (num16 (o_data o) = proto_chap /\ exists a b, o_data o = [a; b; chap_md5]).
+Proof.
+  intros magic p opts r' (SA & _ & _) o Ho Ht.
+  destruct (lcp_req repaired magic p opts) as [r p1] eqn:R. simpl in SA. rewrite SA in Ho.
+  exact (proj1 (lcp_auth_supported_only magic p opts r p1 R) o Ho Ht).
+Qed.
